@@ -4,6 +4,7 @@ import (
 	"fmt"
 	"go/token"
 	"go/types"
+	"math/big"
 	"strings"
 
 	"golang.org/x/tools/go/ssa"
@@ -274,3 +275,37 @@ func (i *interpreter) callerIsRepo() bool {
 }
 
 func isRuneStr(v value) bool { _, ok := v.(runeStr); return ok }
+
+func init() {
+	// math/bits.Len*: interpreted from the standard library's source for concrete arguments (table
+	// look-ups); for a symbolic argument the result is the chain of threshold tests it denotes
+	lenOf := func(width int) natfn {
+		return func(fr *frame, a []value) value {
+			x, ok := a[0].(sym)
+			if !ok {
+				return notHandled{}
+			}
+			switch x.k {
+			case sInt:
+				t := "0"
+				for k := 1; k <= width; k++ {
+					t = "(ite (>= " + x.t + " " + new(big.Int).Lsh(big.NewInt(1), uint(k-1)).String() + ") " + fmt.Sprint(k) + " " + t + ")"
+				}
+				return sym{sInt, 0, t}
+			case sBV:
+				t := fmt.Sprintf("#x%016x", 0)
+				for k := 1; k <= width && k <= x.w; k++ {
+					lim := new(big.Int).Lsh(big.NewInt(1), uint(k-1))
+					t = fmt.Sprintf("(ite (bvuge %s (_ bv%s %d)) #x%016x %s)", x.t, lim.String(), x.w, k, t)
+				}
+				return sym{sBV, 64, t}
+			}
+			return notHandled{}
+		}
+	}
+	overrides["math/bits.Len64"] = lenOf(64)
+	overrides["math/bits.Len32"] = lenOf(32)
+	overrides["math/bits.Len16"] = lenOf(16)
+	overrides["math/bits.Len8"] = lenOf(8)
+	overrides["math/bits.Len"] = lenOf(64)
+}
